@@ -42,14 +42,14 @@ CHECKS = {
    text="Every cut position of well-formed streams (TLC-encoded abstract responses) and of the greeting, under segmentation, both flavours: responses before the cut delivered, clean end iff the cut is a response boundary, unexpected EOF otherwise; exhaustive over all truncations x segmentations on Receive.tla (the two EOF predicates are different code).",
    technique="TLA+ model checking (TLC) of Receive.tla + TLC trace validation of real receive()/connect() executions on truncated streams", note=WIRE_NOTE),
  "C06": dict(level="model_checking", design_ref="DESIGN.md 6 (C06), 7.3",
-   text="Exhaustive over a class alphabet: every command line with string arguments of bounded length over {a, SP, TAB, CR, 0x01, \", ', \\, NUL, 2-byte UTF-8} (singles, pairs, triples) and every builder-accepted short name is built through the real Command API, written by the real Connection::send, and TLC applies the specification's transcription of MPD's request tokenizer to the bytes: name and arguments must come back byte for byte. Failures are attributed per argument to a cause computed by the specification (F-C06-1 known finding).",
-   technique="TLC evaluation of a TLA+ transcription of MPD's tokenizer on real encoder output (exhaustive over class alphabet)", note=CODEC_NOTE),
+   text="Exhaustive over a class alphabet: every command line with string arguments of bounded length over {a, SP, TAB, CR, 0x01, \", ', \\, NUL, 2-byte UTF-8} (singles, pairs, triples) and every builder-accepted short name is built through the real Command API, written by the real Connection::send, and TLC applies the specification's transcription of MPD's request tokenizer to the bytes: name and arguments must come back byte for byte. Failures are attributed per argument to a cause computed by the specification (F-C06-1 known finding). In addition EncoderMC.tla model-checks the encoder AS CODED (Encoder.tla: escape_argument, validation and roll-back of add_argument, list rendering, filter rendering) composed with the peer's tokenizer / filter grammar over every builder / filter history within small bounds: the known causes are exactly the failures, the repaired encoder passes strictly; Encoder.tla is bound to the code byte for byte on every recorded case (drift note).",
+   technique="TLA+ model checking (TLC) of EncoderMC.tla (encoder as coded x MPD tokenizer) + TLC evaluation of the tokenizer model on real encoder output (exhaustive over class alphabet), byte-level model binding", note=CODEC_NOTE),
  "C07": dict(level="model_checking", design_ref="DESIGN.md 6 (C07)",
-   text="All short names over a class alphabet plus framing-word look-alikes, all short sequences of add_argument calls with LF-bearing arguments over string and raw (user-defined) renderers, mixes of all Argument types and command lists: names outside [A-Za-z0-9_]+ or framing words rejected, LF arguments rejected, a rejected argument leaves command and rendered bytes unchanged, every command exactly one LF-terminated line, list output = begin + N lines + end; judged by TLC on the bytes the real send/send_list wrote.",
-   technique="TLC evaluation of the builder contract + MPD tokenizer (TLA+) on real builder/encoder output", note=CODEC_NOTE),
+   text="All short names over a class alphabet plus framing-word look-alikes, all short sequences of add_argument calls with LF-bearing arguments over string and raw (user-defined) renderers, mixes of all Argument types and command lists: names outside [A-Za-z0-9_]+ or framing words rejected, LF arguments rejected, a rejected argument leaves command and rendered bytes unchanged, every command exactly one LF-terminated line, list output = begin + N lines + end; judged by TLC on the bytes the real send/send_list wrote. In addition EncoderMC.tla model-checks the encoder AS CODED (Encoder.tla: escape_argument, validation and roll-back of add_argument, list rendering, filter rendering) composed with the peer's tokenizer / filter grammar over every builder / filter history within small bounds: the known causes are exactly the failures, the repaired encoder passes strictly; Encoder.tla is bound to the code byte for byte on every recorded case (drift note).",
+   technique="TLA+ model checking (TLC) of EncoderMC.tla (builder as coded: one line, roll-back, name contract) + TLC evaluation of the builder contract and MPD tokenizer on real builder/encoder output", note=CODEC_NOTE),
  "C11": dict(level="model_checking", design_ref="DESIGN.md 6 (C11), 7.4",
-   text="All small filter trees (every leaf constructor and operator, NOT, AND, nesting, both association orders) x every short value string over {a, SP, \", ', \\, (, ), 2-byte UTF-8} plus look-alike words are built with the real Filter API and sent in find/count/list; TLC tokenizes the bytes (layer 1) and parses the argument with the transcription of MPD's filter-expression grammar (layer 2): the parsed expression must equal the mirror tree up to AND-associativity, byte-identical values. F-C11-1 known finding by cause signature.",
-   technique="TLC evaluation of TLA+ transcriptions of MPD's tokenizer and filter grammar on real encoder output", note=CODEC_NOTE),
+   text="All small filter trees (every leaf constructor and operator, NOT, AND, nesting, both association orders) x every short value string over {a, SP, \", ', \\, (, ), 2-byte UTF-8} plus look-alike words are built with the real Filter API and sent in find/count/list; TLC tokenizes the bytes (layer 1) and parses the argument with the transcription of MPD's filter-expression grammar (layer 2): the parsed expression must equal the mirror tree up to AND-associativity, byte-identical values. F-C11-1 known finding by cause signature. In addition EncoderMC.tla model-checks the encoder AS CODED (Encoder.tla: escape_argument, validation and roll-back of add_argument, list rendering, filter rendering) composed with the peer's tokenizer / filter grammar over every builder / filter history within small bounds: the known causes are exactly the failures, the repaired encoder passes strictly; Encoder.tla is bound to the code byte for byte on every recorded case (drift note).",
+   technique="TLA+ model checking (TLC) of EncoderMC.tla (filter rendering as coded x MPD tokenizer x filter grammar) + TLC evaluation of both peer layers on real encoder output, byte-level model binding", note=CODEC_NOTE),
  "C15": dict(level="model_checking", design_ref="DESIGN.md 6 (C15), Appendix B",
    text="Commands.tla is the expectation table written from the MPD protocol reference (constructor path -> documented word and argument meanings). Every constructor/builder path x boundary parameter pools is constructed by the real API; TLC tokenizes the request and checks that the arguments DENOTE the same values: ranges as position sets with saturation at MAX, durations within millisecond rounding, clamped volume, whole-second crossfade, sort before window, each string parameter one token in position. Commands of definitions.rs without a table row are reported as a coverage gap.",
    technique="TLC evaluation of a TLA+ command table + MPD tokenizer on real command renderings (table-driven)", note=CODEC_NOTE),
